@@ -256,10 +256,8 @@ def r5(ctx):
         if okx:
             X = xin
     ctx.check("R02.5", "input-is-last-activated", X is not None, "layer-input", c.loc(fn, lnode), "x = activated.last().unwrap() at the start of each step")
-    fn = ctx.fn("network::Network::predict")
-    t = pretty(fn["body"])
-    ok = "let (_, outputs, _, _) = self.forward(input)" in t and "outputs.last().unwrap().clone()" in t
-    ctx.check("R02.5", "predict-is-last-activation", ok, "predict:" + short(t, 80), c.loc(fn), "predict = forward(input).1.last()")
+    from .c12 import predict_rule
+    predict_rule(ctx, "R02.5", "predict-is-last-activation")
     # flatten after activation/dropout in spatial forwards
     for l in ("convolution::Convolution", "deconvolution::Deconvolution", "maxpool::Maxpool"):
         f2 = ctx.fn(l + "::forward")
